@@ -44,7 +44,8 @@ Inductive expr :=
 | EIsObj (e : expr)                              (* isinstance(e, boxes.Box) *)
 | ETuple (es : list expr)                        (* (a, b) / [a, b] *)
 | EIn (neg : bool) (e : expr) (c : expr)         (* e in c / e not in c *)
-| ECall (f : string) (args : list expr).         (* f(a, b): another translated function (method: ".name", self first) *)
+| ECall (f : string) (args : list expr)
+| EXor (a b : expr).                             (* a ^ b on booleans *)         (* f(a, b): another translated function (method: ".name", self first) *)
 
 Inductive target := TVar (x : string) | TAttr (x : string) (a : string).
 
@@ -214,6 +215,11 @@ Fixpoint eval (rho : env) (e : expr) (k : val -> R) {struct e} : R :=
                | x :: l' => veq_k x v (fun b => if b then k (VBool (negb neg)) else mem l')
                end) l
         | VErr m => err m | _ => err "TypeError" end))
+  | EXor a b => eval rho a (fun va => eval rho b (fun vb =>
+      match va, vb with
+      | VBool x, VBool y => k (VBool (xorb x y))
+      | VErr m, _ => err m | _, VErr m => err m
+      | _, _ => err "TypeError" end))
   | ECall f args =>
       (fix go (es : list expr) (acc : list val) : R :=
          match es with
